@@ -11,6 +11,8 @@ import CliUtils.Drv.Status
 import CliUtils.Drv.C16
 import CliUtils.Drv.C18
 import CliUtils.Drv.PruneStep
+import CliUtils.Drv.CacheReader
+import CliUtils.Drv.Scope
 /-
   Line-protocol driver.  stdin: one JSON object per line  {"d": domain, "i": input, "o": implementation output}
   stdout: one line per case that needs attention, then one summary line.
@@ -30,12 +32,15 @@ def handlers : List (String × Handler) := [
   ("rsequal", C17.handleRsEqual),
   ("poll", C17.handlePoll),
   ("pollcache", C17.handlePollCache),
+  ("cachereader", CacheReaderD.handleCacheReader),
+  ("dynreader", CacheReaderD.Dyn.handleDynReader),
   ("collector", C17.handleCollector),
   ("podctl", C17.handlePodctl),
   ("readstatus", C17.handleReadStatus),
   ("graph", C14.handleGraph),
   ("depgraph", C14.handleDepgraph),
   ("prunestep", PruneStep.handlePruneStep),
+  ("scope", ScopeD.handleScope),
   ("policy", Filters.handlePolicy), ("depfilter", Filters.handleDepfilter),
   ("sys", SysD.handleSysFor "all"),
   ("sys-C01", SysD.handleSysFor "C01"), ("sys-C02", SysD.handleSysFor "C02"), ("sys-C03", SysD.handleSysFor "C03"),
